@@ -100,8 +100,10 @@ CHECKS["C08"] = dict(
          "[0, n*days*P] and every game->bye replacement strictly increases it. Trace_TTP recomputes every recorded "
          "GamePlanLength value and every recorded bye replacement (up to 40 positions per plan) for random symmetric/"
          "asymmetric matrices, n<=12. Thorough: TLC's complete feasible set (1 920 plans) is evaluated on the seven "
-         "shipped 4-team instances and its minimum must equal the published optimum.",
-    note="Optimum clause only in the thorough tier (3.26M TLC states). Distances below 2^31 / n / days.")
+         "shipped 4-team instances and its minimum must equal the published optimum (quick: via the renaming closure).",
+    note="The optimum clause runs in both tiers: quick uses the renaming closure of TLC's feasible set with the first day "
+         "fixed (an argument TLC checks itself on the single round robin), thorough the complete set (3.26M TLC states). "
+         "Distances below 2^31 / n / days.")
 CHECKS["C15"] = dict(
     category="model_checking", design_ref="DESIGN.md section 2 (C15)",
     technique="decoder step machine in TLA+ over all code sequences (consistency, multiplicity, monotone placement, "
